@@ -19,3 +19,22 @@ HST_ANY = T.oneof(T.enum(f"{SAP}:HeaderSubType"), T.enum(f"{SAP}:GeoAnycastHST")
 COMMON = T.rec(f"{CH}:CommonHeader", tc=TC, hst=HST_ANY)
 LPV_R = LPV
 
+GBCH = "flexstack.geonet.gbc_extended_header"
+TSBH = "flexstack.geonet.tsb_extended_header"
+GUCH = "flexstack.geonet.guc_extended_header"
+LSH = "flexstack.geonet.ls_extended_header"
+BTPH = "flexstack.btp.btp_header"
+GBC = T.rec(f"{GBCH}:GBCExtendedHeader", so_pv=LPV)
+TSB = T.rec(f"{TSBH}:TSBExtendedHeader", so_pv=LPV)
+GUC = T.rec(f"{GUCH}:GUCExtendedHeader", so_pv=LPV, de_pv=SPV)
+LSREQ = T.rec(f"{LSH}:LSRequestExtendedHeader", so_pv=LPV, request_gn_addr=GNADDR)
+LSREP = T.rec(f"{LSH}:LSReplyExtendedHeader", so_pv=LPV, de_pv=SPV)
+BTPA = T.rec(f"{BTPH}:BTPAHeader")
+BTPB = T.rec(f"{BTPH}:BTPBHeader")
+MIBM = "flexstack.geonet.mib"
+MIB = T.rec(f"{MIBM}:MIB", itsGnLocalGnAddr=GNADDR, itsGnBeaconServiceMaxJitter=T.opt(T.float()))
+AREA = T.rec(f"{SAP}:Area")
+PTT = T.rec(f"{SAP}:PacketTransportType", header_subtype=HST_ANY)
+GNREQ = T.rec(f"{SAP}:GNDataRequest", packet_transport_type=PTT, traffic_class=TC, area=AREA, data=T.bytes(0, 1500),
+              security_permissions=T.bytes(0, 64), destination=T.opt(GNADDR),
+              security_profile=T.enum("flexstack.security.security_profiles:SecurityProfile"))
